@@ -15,7 +15,7 @@ open Rpft Rpft.Compile Rpft.RefFlow Rpft.Flow
 theorem rel_init (rows : List CRow) (M : Maps) (hM : ∀ j, M.rOf j = none) (noArgs testTypes : List Str)
     (h : noArgs = RefFlow.noArgsTests) : Rel rows M false 0 (initSt noArgs testTypes) {} := by
   refine ⟨by rw [gOf_zero]; rfl, by rw [gOf_zero]; rfl, fun j c hj => absurd hj (Nat.not_lt_zero j), rfl, rfl,
-    ?_, by simp [gOf_zero], ?_, ?_, h, ?_, ?_, ?_, hM⟩
+    ?_, by simp [gOf_zero], ?_, ?_, h, ?_, ?_, ?_, fun j _ => hM j, ?_⟩
   · intro p hp; cases hp
   · intro e he; cases he
   · intro e he; cases he
@@ -25,6 +25,7 @@ theorem rel_init (rows : List CRow) (M : Maps) (hM : ∀ j, M.rOf j = none) (noA
   · intro j c j' c' hv; rcases hv.1 with h1 | h1
     · exact absurd h1 (Nat.not_lt_zero j)
     · exact absurd h1.1 (by simp)
+  · intro j i' hi'; rw [hM j] at hi'; cases hi'
   · intro i n r hn; simp [initSt] at hn
 
 /-- pass 1 only ever adds out-edges -/
@@ -107,47 +108,39 @@ theorem rows_sim (rows : List CRow) (outF : List OutEdge) (g : Good rows outF) :
 
 /-! ### the emitted nodes: the nodes of the node-producing rows, in row order -/
 
-/-- the arena index of the node of row `j`, when the row produces one -/
-def nodeIdx (rows : List CRow) (M : Maps) (j : Nat) : Option Nat :=
+/-- the arena indices of the nodes of row `j` (none when the row produces no node) -/
+def nodeIdxs (rows : List CRow) (M : Maps) (j : Nat) : List Nat :=
   match rows[j]? with
-  | some c => if isNodeRow c then some (M.nOf j) else none
-  | none => none
+  | some c => if isNodeRow c then idxs M j else []
+  | none => []
 
 theorem emit_rel {rows : List CRow} {M : Maps} {s : Compile.St} {st : P1}
     (h : Rel rows M false rows.length s st) :
-    emit s (s.groups.size + 2) 0 = (List.range rows.length).filterMap (nodeIdx rows M) := by
+    emit s (s.groups.size + 2) 0 = (List.range rows.length).flatMap (nodeIdxs rows M) := by
   have e1 : emit s (s.groups.size + 1 + 1) 0 =
       (List.range' 1 (gOf rows rows.length - 1)).flatMap (emit s (s.groups.size + 1)) := by
     simp [emit, h.root]
   rw [e1]
   have : ∀ (m : Nat), m ≤ rows.length →
       (List.range' 1 (gOf rows m - 1)).flatMap (emit s (s.groups.size + 1)) =
-        (List.range m).filterMap (nodeIdx rows M) := by
+        (List.range m).flatMap (nodeIdxs rows M) := by
     intro m
     induction m with
     | zero => intro _; simp [gOf_zero]
     | succ m ihm =>
       intro hm
       obtain ⟨c, hc⟩ : ∃ c, rows[m]? = some c := ⟨rows[m], by simp⟩
-      rw [List.range_succ, List.filterMap_append, ← ihm (by omega), gOf_succ rows m c hc]
+      rw [List.range_succ, List.flatMap_append, ← ihm (by omega), gOf_succ rows m c hc]
       have hpos := gOf_pos rows m
       by_cases hn : isNodeRow c = true
       · have hg := h.grp m c (by omega) hc hn
-        rw [h.noR m] at hg
         have e2 : gOf rows m + (if isNodeRow c = true then 1 else 0) - 1 = (gOf rows m - 1) + 1 := by simp [hn] <;> omega
         rw [e2, List.range'_concat, List.flatMap_append]
         have e3 : 1 + (gOf rows m - 1) = gOf rows m := by omega
-        simp [e3, emit, hg, nodeIdx, hc, hn]
+        simp [e3, emit, hg, nodeIdxs, hc, hn, idxs]
       · have hn' : isNodeRow c = false := by simpa using hn
-        simp [hn', nodeIdx, hc]
+        simp [hn', nodeIdxs, hc]
   exact this rows.length (Nat.le_refl _)
-
-/-- the compiled nodes: per row, the node it produced -/
-theorem out_nodes_rel {rows : List CRow} {M : Maps} {s : Compile.St} {st : P1}
-    (h : Rel rows M false rows.length s st) :
-    ((emit s (s.groups.size + 2) 0).filterMap fun i => s.nodes[i]?) =
-      (List.range rows.length).filterMap (fun j => (nodeIdx rows M j).bind (fun i => s.nodes[i]?)) := by
-  rw [emit_rel h, List.filterMap_filterMap]
 
 /-! ### positions in a list built by `filterMap` -/
 
